@@ -2,6 +2,7 @@ import Driver.LuCheck
 import Driver.PivotEng
 import Driver.FactorEng
 import Driver.SchedEng
+import Driver.FixupEng
 
 def readAll (h : IO.FS.Stream) : IO String := do
   let mut acc := ""
@@ -17,6 +18,7 @@ def main (args : List String) : IO UInt32 := do
   | ["lucheck"] => Drv.lucheckMain (← readAll stdin)
   | ["pivot"] => Drv.pivotMain (← readAll stdin)
   | ["factor"] => Drv.factorMain (← readAll stdin)
+  | ["fixup"] => Drv.fixupMain (← readAll stdin)
   | ["schedtrace"] => Drv.schedTraceMain (← readAll stdin)
   | ["schedexplore"] => Drv.schedExploreMain (← readAll stdin)
   | _ => IO.eprintln "usage: sludrv <engine>   (input on stdin)"; return 2
